@@ -292,12 +292,14 @@ func (c *compiler) compileType(y *Type, parent Leafable, isUnion bool) error {
 		return nil
 	}
 	var builtinType bool
+	var fromTypedef *Typedef
 	y.format, builtinType = val.TypeAsFormat(y.ident)
 	if !builtinType {
 		tdef, err := c.findTypedef(y, parent, y.ident)
 		if err != nil {
 			return err
 		}
+		fromTypedef = tdef
 
 		// Don't use resolve here because if a typedef is a leafref, you want
 		// the unresolved here and resolve it below
@@ -332,6 +334,15 @@ func (c *compiler) compileType(y *Type, parent Leafable, isUnion bool) error {
 			}
 		}
 		y.delegate = target.Type()
+		if y.delegate == y {
+			return fmt.Errorf("%s - %s path leads to the leaf itself", SchemaPath(parent), y.ident)
+		}
+		// leafrefs may lead to leafrefs but have to arrive at a value somewhere
+		for t, hops := y.delegate, 0; t != nil && (t.format == val.FmtLeafRef || t.format == val.FmtLeafRefList) && t.delegate != nil && t.delegate != t; t, hops = t.delegate, hops+1 {
+			if t.delegate == y || t == y || hops > 1000 {
+				return fmt.Errorf("%s - %s path leads back to the leaf itself", SchemaPath(parent), y.ident)
+			}
+		}
 	} else {
 		y.delegate = y
 	}
@@ -359,6 +370,17 @@ func (c *compiler) compileType(y *Type, parent Leafable, isUnion bool) error {
 	if y.format == val.FmtUnion || y.format == val.FmtUnionList {
 		if len(y.unionTypes) == 0 {
 			return errors.New(SchemaPath(parent) + " - unions need at least one type")
+		}
+		if fromTypedef != nil {
+			// the members are the typedef's: one of them naming the typedef again is the
+			// typedef defined in terms of itself
+			if c.typedefsInProgress == nil {
+				c.typedefsInProgress = make(map[*Typedef]struct{})
+			}
+			if _, already := c.typedefsInProgress[fromTypedef]; !already {
+				c.typedefsInProgress[fromTypedef] = struct{}{}
+				defer delete(c.typedefsInProgress, fromTypedef)
+			}
 		}
 		for _, u := range y.unionTypes {
 			if err := c.compileType(u, parent, true); err != nil {
